@@ -9,6 +9,7 @@ import (
 	"fmt"
 	"io/ioutil"
 	"math/rand"
+	"regexp"
 	"sort"
 	"strings"
 	"unicode"
@@ -409,6 +410,13 @@ func Config(c absd.Cfg, l Layout, rng *rand.Rand) (yaml string, cli []string) {
 
 	list := func(key string, items []string) string {
 		var b strings.Builder
+		if c.YamlStyle == "flow" {
+			q := []string{}
+			for _, it := range shuffled(rng, items) {
+				q = append(q, yq(it))
+			}
+			return key + ": [" + strings.Join(q, ", ") + "]\n"
+		}
 		b.WriteString(key + ":\n")
 		for _, it := range shuffled(rng, items) {
 			b.WriteString("  - " + yq(it) + "\n")
@@ -568,5 +576,37 @@ func Config(c absd.Cfg, l Layout, rng *rand.Rand) (yaml string, cli []string) {
 	if rng != nil {
 		cli = shuffled(rng, cli)
 	}
+	if c.YamlStyle == "alias" {
+		return aliasRepeated(b.String()), cli
+	}
 	return b.String(), cli
+}
+
+var reListItem = regexp.MustCompile(`^  - (".*")$`)
+
+// aliasRepeated rewrites the entries of the top-level lists that occur more than once in the document: the first
+// occurrence (in document order) gets an anchor, the later ones become aliases of it.  The document denotes the same value.
+func aliasRepeated(doc string) string {
+	lines := strings.Split(doc, "\n")
+	count := map[string]int{}
+	for _, ln := range lines {
+		if m := reListItem.FindStringSubmatch(ln); m != nil {
+			count[m[1]]++
+		}
+	}
+	anchor := map[string]string{}
+	for i, ln := range lines {
+		m := reListItem.FindStringSubmatch(ln)
+		if m == nil || count[m[1]] < 2 {
+			continue
+		}
+		if a, ok := anchor[m[1]]; ok {
+			lines[i] = "  - *" + a
+		} else {
+			a := fmt.Sprintf("a%d", len(anchor)+1)
+			anchor[m[1]] = a
+			lines[i] = "  - &" + a + " " + m[1]
+		}
+	}
+	return strings.Join(lines, "\n")
 }
